@@ -41,6 +41,8 @@ var targets = []string{
 	"MetadataCache.isCacheValid", "MetadataCache.Cleanup", "MetadataCache.GetMetadata",
 	"SessionData.expireAccessTokenChunks", "SessionData.expireRefreshTokenChunks",
 	"SessionData.SetAccessToken", "SessionData.GetAccessToken", "SessionData.SetRefreshToken", "SessionData.GetRefreshToken",
+	"SessionData.GetCSRF", "SessionData.SetCSRF", "SessionData.GetNonce", "SessionData.SetNonce", "SessionData.GetCodeVerifier", "SessionData.SetCodeVerifier",
+	"SessionData.GetEmail", "SessionData.SetEmail", "SessionData.GetIncomingPath", "SessionData.SetIncomingPath",
 }
 
 // functions whose effects are on the outside world and the clock (discovery): `time.Now()`, `time.Sleep` and the HTTP fetch are
@@ -49,7 +51,8 @@ var clocked = map[string]bool{"discoverProviderMetadata": true, "MetadataCache.G
 
 // methods of *MetadataCache that assign its fields: they take the struct and return the new one next to their result
 var recvMutMethods = map[string]bool{"MetadataCache.GetMetadata": true, "MetadataCache.Cleanup": true,
-	"SessionData.expireAccessTokenChunks": true, "SessionData.expireRefreshTokenChunks": true, "SessionData.SetAccessToken": true, "SessionData.SetRefreshToken": true}
+	"SessionData.expireAccessTokenChunks": true, "SessionData.expireRefreshTokenChunks": true, "SessionData.SetAccessToken": true, "SessionData.SetRefreshToken": true,
+	"SessionData.SetCSRF": true, "SessionData.SetNonce": true, "SessionData.SetCodeVerifier": true, "SessionData.SetEmail": true, "SessionData.SetIncomingPath": true}
 
 // calls that read or change the state shared between requests (token cache, revocation list, limiter): the translated function
 // takes that state as its last argument `w` and returns it next to its result; the operations are the fields of `Go.VOps`
